@@ -10,6 +10,7 @@ import Prom.Drv.Text
 import Prom.Drv.Pb
 import Prom.Drv.C16
 import Prom.Drv.Macro
+import Prom.Drv.SM
 /- Line-protocol driver: one request per line on stdin, one result per line on stdout. -/
 open Prom Prom.Drv
 
@@ -26,6 +27,7 @@ def step (st : DState) (line : String) : DState × String :=
   | "hist" :: args => (st, histHandle args)
   | "desc" :: args => (st, descHandle args)
   | "macro" :: args => (st, macroHandle args)
+  | "sm" :: args => (st, smHandle args)
   | "text" :: args => (st, textHandle args)
   | "pb" :: args => (st, pbHandle args)
   | "catom" :: args => (st, concHandle "catom" args)
